@@ -89,10 +89,13 @@ Loaded(F, fs, glob) == LoadFiles(F, L0, fs, 1, glob)
 NormAt(l, x) == LET os == {l.orders[l.atoms[x.at[j]].oi] : j \in DOMAIN x.at}
                     base == MinOf(os)
                 IN [j \in DOMAIN x.at |-> <<l.orders[l.atoms[x.at[j]].oi] - base, l.atoms[x.at[j]].an>>]
+HasStar(l) == \E i \in DOMAIN l.orders : l.orders[i] >= 100
+NamesAt(l, x) == [j \in DOMAIN x.at |-> l.atoms[x.at[j]].an]
 LinkConflict(l1, l2) ==
   \/ \E i \in DOMAIN l1.inters, j \in DOMAIN l2.inters :
         /\ l1.inters[i].kind = l2.inters[j].kind /\ l1.inters[i].ver = l2.inters[j].ver
-        /\ NormAt(l1, l1.inters[i]) = NormAt(l2, l2.inters[j])
+        /\ \/ NormAt(l1, l1.inters[i]) = NormAt(l2, l2.inters[j])
+           \/ ((HasStar(l1) \/ HasStar(l2)) /\ NamesAt(l1, l1.inters[i]) = NamesAt(l2, l2.inters[j]))      \* a star order can land anywhere
   \/ \E i \in DOMAIN l1.rep, j \in DOMAIN l2.rep : l1.atoms[l1.rep[i].a].an = l2.atoms[l2.rep[j].a].an
 DefConflict(F, d1, d2) ==
   \/ (d1.t = "b" /\ d2.t = "b" /\ F.blocks[d1.i].name = F.blocks[d2.i].name)
@@ -178,7 +181,10 @@ LinkRns(l) == UNION {l.atoms[a].rn : a \in DOMAIN l.atoms}
 ResMatches(c, l) == {phi \in [1..NOrd(l) -> Pos(c)] :
                        /\ \A i, j \in 1..NOrd(l) : i < j => (phi[i] # phi[j] /\ (PEdge(l, i, j) <=> {phi[i], phi[j]} \in c.E))
                        /\ \A i \in 1..NOrd(l) : c.rn[phi[i]] \in OrdRn(l, i)}
-OrderOK(c, l, phi) == \A i, j \in 1..NOrd(l) : Resid(c, phi[j]) - Resid(c, phi[i]) = l.orders[j] - l.orders[i]
+\* relative orders: integers are residue-id offsets (0, +1, -1 ...); 100 + k stands for k stars ("some other residue", vermouth's `*` prefix):
+\* a star order only asks for a residue different from the others (phi is injective), so both orientations of a two-residue `*` link match
+IsStar(o) == o >= 100
+OrderOK(c, l, phi) == \A i, j \in 1..NOrd(l) : (IsStar(l.orders[i]) \/ IsStar(l.orders[j])) \/ Resid(c, phi[j]) - Resid(c, phi[i]) = l.orders[j] - l.orders[i]
 \* link atom -> the one atom of its residue with that name (0 where there is none or more than one)
 ImgVec(c, M, l, phi) == TLCEval([a \in DOMAIN l.atoms |->
                            LET p == phi[l.atoms[a].oi]
